@@ -339,6 +339,13 @@ class DevPeer(object):
         return True
 
 
+def hsym(it, ep, kind, aligned):
+    """symbol of a handshake message (marks messages whose CONTENT is deliberately wrong)"""
+    if getattr(it, 'bad_content', False):
+        return (ep, kind, it.kind(), aligned, 'bad')
+    return (ep, kind, it.kind(), aligned)
+
+
 def split_at(data, n):
     n = max(1, min(len(data) - 1, n))
     return data[:n], data[n:]
@@ -379,7 +386,7 @@ def apply_ops(dp, items):
                 it.epoch = ep
                 it.ver = tail[0].ver
                 last = j == len(tail) - 1
-                syms.append((ep, 'PH' if j == 0 else 'PBufH', it.kind(), last))
+                syms.append(hsym(it, ep, 'PH' if j == 0 else 'PBufH', last))
             recs0.append({'items': tail, 'syms': syms})
             dp.applied.append(o_merge)
             return recs0
@@ -401,7 +408,7 @@ def apply_ops(dp, items):
             if mid:
                 x = extra_item(mid, it.epoch, it.ver, dp.version, dp.sent_items)
                 recs.append({'items': [x], 'syms': [dp.sym_plain(x)]})
-            recs.append({'items': [ib], 'syms': [(it.epoch, 'PH', it.kind(), True)]})
+            recs.append({'items': [ib], 'syms': [hsym(it, it.epoch, 'PH', True)]})
             dp.applied.append(o_split)
         elif o_coal and i + 1 < len(work) and work[i + 1].ct == it.ct == ContentType.handshake \
                 and work[i + 1].epoch == it.epoch:
@@ -412,11 +419,11 @@ def apply_ops(dp, items):
                 na, nb = nxt.copy(), nxt.copy()
                 na.data, nb.data = a, b
                 recs.append({'items': [it, na],
-                             'syms': [(it.epoch, 'PH', it.kind(), False), (it.epoch, 'PBufFrag')]})
-                recs.append({'items': [nb], 'syms': [(nxt.epoch, 'PH', nxt.kind(), True)]})
+                             'syms': [hsym(it, it.epoch, 'PH', False), (it.epoch, 'PBufFrag')]})
+                recs.append({'items': [nb], 'syms': [hsym(nxt, nxt.epoch, 'PH', True)]})
             else:
                 recs.append({'items': [it, nxt],
-                             'syms': [(it.epoch, 'PH', it.kind(), False), (it.epoch, 'PBufH', nxt.kind(), True)]})
+                             'syms': [hsym(it, it.epoch, 'PH', False), hsym(nxt, it.epoch, 'PBufH', True)]})
             i += 1
             dp.applied.append(o_coal)
         elif o_span and it.ct == ContentType.handshake and len(it.data) > 1:
@@ -436,15 +443,15 @@ def apply_ops(dp, items):
                 ia.ver = pit.ver
                 prev['items'].append(ia)
                 s0 = prev['syms'][0]
-                prev['syms'] = [(s0[0], 'PH', s0[2], False), (s0[0], 'PBufFrag')]
-                recs.append({'items': [ib], 'syms': [(it.epoch, 'PH', it.kind(), True)]})
+                prev['syms'] = [tuple([s0[0], 'PH', s0[2], False] + list(s0[4:])), (s0[0], 'PBufFrag')]
+                recs.append({'items': [ib], 'syms': [hsym(it, it.epoch, 'PH', True)]})
                 dp.applied.append(o_span)
             elif recs and recs[-1]['items'][0].ct != ContentType.handshake:
                 pit = recs[-1]['items'][0]
                 ia.epoch = pit.epoch
                 ia.ver = pit.ver
                 recs.insert(len(recs) - 1, {'items': [ia], 'syms': [(pit.epoch, 'PFrag')]})
-                recs.append({'items': [ib], 'syms': [(it.epoch, 'PH', it.kind(), True)]})
+                recs.append({'items': [ib], 'syms': [hsym(it, it.epoch, 'PH', True)]})
                 dp.applied.append(o_span)
             else:
                 recs.append({'items': [it], 'syms': [dp.sym_plain(it)]})
